@@ -10,6 +10,7 @@ import (
 	"encoding/json"
 	"math/big"
 	"strings"
+	"sync/atomic"
 
 	"github.com/ethereum/go-ethereum/accounts/abi"
 	"github.com/ethereum/go-ethereum/common"
@@ -40,6 +41,12 @@ type In struct {
 	// earlier checks through the same wrapper instance, each with its own pair of answers (the
 	// measured check is judged on the answers the chain gives at *its* moment)
 	Prior []Prior `json:"prior,omitempty"`
+	// stake/prepay: a second call for this other amount overlaps the measured one on the same
+	// wrapper instance.  The call that reaches the client first is held inside Send until the other
+	// one has returned; Measured says which of the two is reported (and Amount is always the
+	// measured call's own amount).
+	OverlapAmount string `json:"overlap_amount,omitempty"`
+	Measured      string `json:"measured,omitempty"` // held | other
 }
 type Prior struct {
 	Min Ans `json:"min"`
@@ -77,6 +84,9 @@ func run(in In) (obs Obs) {
 		minName, amtName, stakeName = "minAllowance", "getAllowance", "prepay"
 	}
 	var sentHash = common.HexToHash("0xabc1")
+	var arrivals atomic.Int32
+	var obsHeld Obs
+	heldIn, heldGo := make(chan struct{}), make(chan struct{})
 	curMin, curAmt := in.Min, in.Amt
 	cl := mockevmclient.New(
 		mockevmclient.WithCallFunc(func(_ context.Context, req *evmclient.TxRequest) ([]byte, error) {
@@ -103,6 +113,14 @@ func run(in In) (obs Obs) {
 			return b, nil
 		}),
 		mockevmclient.WithSendFunc(func(_ context.Context, req *evmclient.TxRequest) (common.Hash, error) {
+			if in.OverlapAmount != "" {
+				if arrivals.Add(1) == 1 {
+					close(heldIn)
+					<-heldGo // the request is read by the client only now
+					defer func() { obs.Requests, obsHeld.Requests = obsHeld.Requests, obs.Requests }()
+					obs.Requests, obsHeld.Requests = obsHeld.Requests, obs.Requests
+				}
+			}
 			r := Req{Value: vh.BigStr(req.Value)}
 			r.ToRegistry = req.To != nil && *req.To == regAddr
 			r.DataIsSelector = string(req.CallData) == string(a.Methods[stakeName].ID)
@@ -129,6 +147,46 @@ func run(in In) (obs Obs) {
 		}
 	}()
 	addr := common.HexToAddress("0x1234567890123456789012345678901234567890")
+	if in.OverlapAmount != "" {
+		var op func(*big.Int) error
+		if in.Which == "bidder" {
+			c := bidderreg.New(regAddr, cl, vh.Quiet())
+			op = func(v *big.Int) error { return c.PrepayAllowance(context.Background(), v) }
+		} else {
+			c := providerreg.New(regAddr, cl, vh.Quiet())
+			op = func(v *big.Int) error { return c.RegisterProvider(context.Background(), v) }
+		}
+		heldAmt, otherAmt := in.Amount, in.OverlapAmount
+		if in.Measured == "other" {
+			heldAmt, otherAmt = in.OverlapAmount, in.Amount
+		}
+		heldDone := make(chan bool, 1)
+		go func() {
+			defer func() {
+				if recover() != nil {
+					heldDone <- false
+				}
+			}()
+			heldDone <- op(vh.Big(heldAmt)) == nil
+		}()
+		select {
+		case <-heldIn:
+		case ok := <-heldDone: // never reached the client
+			obsHeld.OK = ok
+			heldDone <- ok
+		}
+		otherOK := op(vh.Big(otherAmt)) == nil
+		close(heldGo)
+		obsHeld.OK = <-heldDone
+		obsHeld.Waited = obs.Waited
+		if in.Measured == "other" {
+			obs.OK = otherOK
+			return obs
+		}
+		obsHeld.Requests = append([]Req{}, obsHeld.Requests...)
+		obsHeld.Order = []string{}
+		return obsHeld
+	}
 	if in.Which == "bidder" {
 		c := bidderreg.New(regAddr, cl, vh.Quiet())
 		for _, pr := range in.Prior {
@@ -240,6 +298,15 @@ func main() {
 						}
 						in := In{Tag: tag, Kind: "stake", Which: which, Amount: amt.String(), SendOK: sendOK, WaitErr: waitErr, Status: status}
 						out.Emit(in, run(in))
+						if amt.Sign() > 0 && amt.BitLen() < 200 {
+							// two overlapping calls for different amounts: each sends its own
+							for _, m := range []string{"held", "other"} {
+								in2 := in
+								in2.Tag, in2.Measured = tag+"-overlapping", m
+								in2.OverlapAmount = new(big.Int).Add(new(big.Int).Mul(amt, big.NewInt(5)), big.NewInt(3)).String()
+								out.Emit(in2, run(in2))
+							}
+						}
 					}
 				}
 			}
